@@ -456,6 +456,7 @@ func (u *Unit) execGo(st *State, fr *Frame, x *ssa.Go) {
 		desigs[i] = "go:" + desigs[i]
 	}
 	desigs = append(desigs, "go")
+	desigs = append(desigs, u.borrowLendDesigs(st, fr, fn, args)...)
 	argT := termsOf(args)
 	u.callAssertions(st, fr, x, desigs, argT)
 	u.bumpCalls(st, desigs, argT, nil)
